@@ -527,7 +527,7 @@ class Ctx:
             return []
         return [(bi, t_false) for (bi, t_true, t_false, txt) in self.find_guard(key, (), cond=cond)]
 
-    def r2_arg(self, rid, fn, callee, index, must=(), must_not=(), const=None, desc=None, floor=1, where=None):
+    def r2_arg(self, rid, fn, callee, index, must=(), must_not=(), const=None, desc=None, floor=1, where=None, text=None):
         """Every call of `callee` in fn passes an argument #index whose atoms ⊇ must, ∩ must_not = ∅, or equal to const."""
         F = self.F
         d = desc or "%s: argument %d of %s ⊇ %s%s" % (short(fn, 2), index, callee, list(must), (" = const %s" % const) if const is not None else "")
@@ -556,6 +556,8 @@ class Ctx:
             bad = None
             if const is not None and txt != str(const):
                 bad = "argument is `%s`, expected constant %s" % (txt[:160], const)
+            elif text is not None and not re.search(text, txt):
+                bad = "argument is `%s`, expected to match %s" % (txt[:160], text)
             elif not _has(a, must):
                 bad = "argument `%s` does not derive from %s" % (txt[:160], list(must))
             elif any(_has(a, [m]) for m in must_not):
